@@ -305,7 +305,47 @@ func TestC06(t *testing.T) {
 			rt.Fatalf("VF-VIOLATION: property=C06 %s declared=%d key=%x msg=%x history=%s [%s]: %v", a.name, declared, key, msg, shape.String(), who, err)
 		}
 
-		// absorb phase: chunked writes, optionally a Clone that absorbs a different suffix
+		// every live copy (the original and all clones, clones of clones) stays in the pool and
+		// keeps being driven in drawn interleavings; each one is compared at its own position
+		// of its own reference stream
+		pool := []*c06Reader{r}
+		who := func(i int) string {
+			if i == 0 {
+				return "orig"
+			}
+			return fmt.Sprintf("clone#%d", i)
+		}
+		pick := func() int {
+			if len(pool) == 1 {
+				return 0
+			}
+			return rapid.IntRange(0, len(pool)-1).Draw(rt, "who")
+		}
+		note := func(i int, code byte) {
+			if i > 0 {
+				shape.WriteByte(byte('0' + i))
+			}
+			shape.WriteByte(code)
+		}
+		addClone := func(i int) int {
+			pool = append(pool, pool[i].clone())
+			clones++
+			note(i, 'C')
+			if pool[i].reading {
+				c.Class("clone:while-squeezing")
+				if pool[i].pos%a.node != 0 {
+					c.Class("clone:inside-a-node")
+				}
+			} else {
+				c.Class("clone:while-absorbing")
+			}
+			if i > 0 {
+				c.Class("clone:of-a-clone")
+			}
+			return len(pool) - 1
+		}
+
+		// absorb phase: chunked writes; a Clone taken here absorbs a different suffix and lives on
 		chunks := gen.Chunks(rt, "chunks", n, 2*a.node)
 		off := 0
 		for _, cl := range chunks {
@@ -314,18 +354,20 @@ func TestC06(t *testing.T) {
 			}
 			off += cl
 			shape.WriteByte('w')
-			if rapid.IntRange(0, 11).Draw(rt, "wclone") == 0 {
-				cr := r.clone()
-				clones++
-				shape.WriteByte('C')
+			if len(pool) < 4 && rapid.IntRange(0, 9).Draw(rt, "wclone") == 0 {
+				ci := addClone(pick())
+				if pool[ci].reading {
+					continue
+				}
 				extra := gen.RandBytes(rt, "cloneExtra", rapid.IntRange(0, 150).Draw(rt, "cloneExtraLen"))
-				if err := cr.write(extra); err != nil {
-					fail("write-clone", err)
+				if err := pool[ci].write(extra); err != nil {
+					fail(who(ci), err)
 				}
-				if err := cr.read(rapid.IntRange(1, 150).Draw(rt, "cloneRead")); err != nil {
-					fail("write-clone", err)
+				if rapid.Bool().Draw(rt, "cloneReadsNow") {
+					if err := pool[ci].read(rapid.IntRange(1, 150).Draw(rt, "cloneRead")); err != nil {
+						fail(who(ci), err)
+					}
 				}
-				c.Class("clone:while-absorbing")
 			}
 		}
 
@@ -338,38 +380,87 @@ func TestC06(t *testing.T) {
 			shape.WriteByte('J')
 			c.Class("b2xs-unknown:beyond-2^16")
 		}
-		nReads := rapid.IntRange(1, 30).Draw(rt, "nReads")
-		for i := 0; i < nReads; i++ {
-			sz, code := c06ReadSize(rt, r, true)
-			if err := r.read(sz); err != nil {
-				fail("orig", err)
+		jumps := 0
+		nSteps := rapid.IntRange(1, 40).Draw(rt, "nSteps")
+		for i := 0; i < nSteps; i++ {
+			xi := pick()
+			x := pool[xi]
+			switch act := rapid.IntRange(0, 19).Draw(rt, "act"); {
+			case act <= 2 && len(pool) < 5:
+				// Clone in mid-stream; optionally a directed interleaving right away
+				ci := addClone(xi)
+				switch rapid.IntRange(0, 4).Draw(rt, "afterClone") {
+				case 0: // the source copy runs ahead across several nodes before the clone reads at all
+					if err := x.read(a.node*rapid.IntRange(1, 5).Draw(rt, "aheadK") + rapid.IntRange(-1, 3).Draw(rt, "aheadD")); err != nil {
+						fail(who(xi), err)
+					}
+					note(xi, 'a')
+					if err := pool[ci].read(rapid.IntRange(1, a.node+2).Draw(rt, "behindN")); err != nil {
+						fail(who(ci), err)
+					}
+					note(ci, 'u')
+					c.Class("interleave:source-ahead-then-clone")
+				case 1: // the clone runs ahead, then the source reads
+					if err := pool[ci].read(a.node*rapid.IntRange(1, 5).Draw(rt, "aheadK") + rapid.IntRange(-1, 3).Draw(rt, "aheadD")); err != nil {
+						fail(who(ci), err)
+					}
+					note(ci, 'a')
+					if err := x.read(rapid.IntRange(1, a.node+2).Draw(rt, "behindN")); err != nil {
+						fail(who(xi), err)
+					}
+					note(xi, 'u')
+					c.Class("interleave:clone-ahead-then-source")
+				case 2: // alternating small reads
+					for k, m := 0, rapid.IntRange(2, 6).Draw(rt, "altN"); k < m; k++ {
+						t := xi
+						if k%2 == 1 {
+							t = ci
+						}
+						if err := pool[t].read(rapid.IntRange(1, a.node).Draw(rt, "altSize")); err != nil {
+							fail(who(t), err)
+						}
+						note(t, 'u')
+					}
+					c.Class("interleave:alternating")
+				}
+			case act == 3:
+				// Write: absorbed by a copy that has not been read yet, otherwise it must panic and not disturb the stream
+				if err := x.write(gen.RandBytes(rt, "lateWrite", rapid.IntRange(0, 70).Draw(rt, "lateWriteLen"))); err != nil {
+					fail(who(xi), err)
+				}
+				if x.reading {
+					note(xi, '!')
+					c.Class("write-after-read")
+				} else {
+					note(xi, 'w')
+				}
+			default:
+				sz, code := c06ReadSize(rt, x, jumps < 2)
+				if code == 'j' {
+					jumps++
+				}
+				if err := x.read(sz); err != nil {
+					fail(who(xi), err)
+				}
+				note(xi, code)
 			}
-			shape.WriteByte(code)
-			switch act := rapid.IntRange(0, 15).Draw(rt, "act"); {
-			case act <= 1:
-				// Clone in mid-stream: both copies continue with different chunkings
-				cr := r.clone()
-				clones++
-				shape.WriteByte('C')
-				for j, k := 0, rapid.IntRange(1, 6).Draw(rt, "cloneReads"); j < k; j++ {
-					csz, _ := c06ReadSize(rt, cr, false)
-					if err := cr.read(csz); err != nil {
-						fail("clone", err)
-					}
+		}
+		// every copy that is still alive is read once more at the end, in drawn order
+		if len(pool) > 1 {
+			for _, xi := range rapid.Permutation(func() []int {
+				idx := make([]int, len(pool))
+				for i := range idx {
+					idx[i] = i
 				}
-				if rapid.Bool().Draw(rt, "cloneWrite") {
-					if err := cr.write([]byte{1, 2, 3}); err != nil {
-						fail("clone", err)
-					}
+				return idx
+			}()).Draw(rt, "finalOrder") {
+				if err := pool[xi].read(rapid.IntRange(1, 2*a.node).Draw(rt, "finalRead")); err != nil {
+					fail(who(xi), err)
 				}
-				c.Class("clone:while-squeezing")
-			case act == 2:
-				// Write after the first Read must panic and must not disturb the stream
-				if err := r.write(gen.RandBytes(rt, "lateWrite", rapid.IntRange(0, 70).Draw(rt, "lateWriteLen"))); err != nil {
-					fail("orig", err)
-				}
-				shape.WriteByte('!')
-				c.Class("write-after-read")
+			}
+			for _, x := range pool[1:] {
+				r.straddles += x.straddles
+				r.tailReads += x.tailReads
 			}
 		}
 		reachedEnd := false
@@ -483,6 +574,68 @@ func TestC06(t *testing.T) {
 		}
 	}
 	c.Exhaustive(fmt.Sprintf("declared length 1..%d x read size {1,7,31,32,33,63,64,65} x {BLAKE2Xb, BLAKE2Xs}, read to EOF", maxL), total)
+
+	// directed Clone interleavings: clone position inside / at the edge of a node x order in which the copies advance
+	type step struct{ who, n int } // n < 0: pool[who] is cloned (appended to the pool)
+	patterns := map[string]func(node int) []step{
+		"source-first": func(nd int) []step { return []step{{0, -1}, {0, 2*nd + 1}, {1, nd}, {0, 5}, {1, 5}} },
+		"clone-first":  func(nd int) []step { return []step{{0, -1}, {1, 2*nd + 1}, {0, nd}, {1, 5}, {0, 5}} },
+		"alternating": func(nd int) []step {
+			return []step{{0, -1}, {0, 3}, {1, 3}, {0, nd - 1}, {1, nd - 1}, {0, nd + 1}, {1, nd + 1}}
+		},
+		"far-ahead": func(nd int) []step {
+			return []step{{0, -1}, {0, 7*nd + 3}, {1, 1}, {1, nd}, {0, 1}, {1, 9 * nd}, {0, nd}}
+		},
+		"clone-of-clone": func(nd int) []step {
+			return []step{{0, -1}, {1, 2}, {1, -1}, {1, 2 * nd}, {2, 3}, {0, nd + 1}, {2, nd}, {1, 1}, {2, -1}, {2, 3 * nd}, {3, nd - 1}}
+		},
+		"two-clones-source-ahead": func(nd int) []step { return []step{{0, -1}, {0, -1}, {0, 3 * nd}, {2, 1}, {1, nd + 1}, {2, nd}} },
+	}
+	names := []string{"source-first", "clone-first", "alternating", "far-ahead", "clone-of-clone", "two-clones-source-ahead"}
+	nInter := 0
+	for _, a := range []c06Alg{c06B, c06S} {
+		for _, declared := range []uint32{0, 1000, uint32(3*a.node + 5), uint32(12 * a.node)} {
+			for _, p0 := range []int{0, 1, a.node / 2, a.node - 1, a.node, a.node + 3, 2*a.node - 1} {
+				for _, name := range names {
+					item++
+					if !ev.Mine(item) {
+						continue
+					}
+					key := seqBytes(int(declared) % (a.maxKey + 1))
+					x, err := a.newXOF(declared, key)
+					if err != nil {
+						c.Violation(fmt.Sprintf("%s NewXOF(%d) failed: %v", a.name, declared, err), "")
+						t.Fatalf("VF-VIOLATION: property=C06 %s NewXOF(%d) failed: %v", a.name, declared, err)
+					}
+					pool := []*c06Reader{{a: a, declared: declared, key: key, x: x}}
+					err = pool[0].write(seqBytes(40 + p0))
+					if err == nil && p0 > 0 {
+						err = pool[0].read(p0)
+					}
+					for si, st := range patterns[name](a.node) {
+						if err != nil {
+							break
+						}
+						if st.n < 0 {
+							pool = append(pool, pool[st.who].clone())
+							continue
+						}
+						if err = pool[st.who].read(st.n); err != nil {
+							err = fmt.Errorf("step %d (copy %d reads %d): %w", si, st.who, st.n, err)
+						}
+					}
+					if err != nil {
+						what := fmt.Sprintf("%s declared=%d clone at position %d, interleaving %s: %v", a.name, declared, p0, name, err)
+						c.Violation(what, "")
+						t.Fatalf("VF-VIOLATION: property=C06 %s", what)
+					}
+					c.Case(true, fmt.Sprintf("interleave|%s|%d|%d|%s", a.name, declared, p0, name), "enum:clone-interleaving:"+name)
+					nInter++
+				}
+			}
+		}
+	}
+	c.Exhaustive("Clone interleavings: {BLAKE2Xb, BLAKE2Xs} x declared {unknown, 1000, 3*node+5, 12*node} x clone position {0,1,node/2,node-1,node,node+3,2*node-1} x 6 advance orders (source first, clone first, alternating, far ahead, clone of clone, two clones)", nInter)
 
 	// the reference's parameter-block handling against hashlib's tree parameters
 	// (hashlib refuses depth = 0, so the node hashes themselves cannot be replayed there)
